@@ -1,0 +1,301 @@
+//go:build verif
+
+// Hooks used by the external verification harness. This file is only compiled when the "verif"
+// build tag is set; it adds read-only views of unexported state and changes no behaviour.
+
+package sif
+
+import (
+	"bytes"
+	"encoding/binary"
+	"fmt"
+	"reflect"
+	"sort"
+	"strings"
+)
+
+// VerifField describes one field of an on-disk structure, as encoding/binary sees it.
+type VerifField struct {
+	Name string
+	Kind string // i32, u32, i64, bool, bytes
+	Size int    // encoded size in bytes
+}
+
+// VerifLayout describes an on-disk structure.
+type VerifLayout struct {
+	Name   string
+	Size   int // binary.Size of the structure
+	Fields []VerifField
+}
+
+func verifLayoutOf(name string, v any) VerifLayout {
+	t := reflect.TypeOf(v)
+	l := VerifLayout{Name: name, Size: binary.Size(v)}
+
+	for i := 0; i < t.NumField(); i++ {
+		f := t.Field(i)
+
+		var kind string
+
+		switch f.Type.Kind() { //nolint:exhaustive
+		case reflect.Int32:
+			kind = "i32"
+		case reflect.Uint32:
+			kind = "u32"
+		case reflect.Int64:
+			kind = "i64"
+		case reflect.Bool:
+			kind = "bool"
+		case reflect.Array:
+			if f.Type.Elem().Kind() != reflect.Uint8 {
+				kind = "unsupported:" + f.Type.String()
+			} else {
+				kind = "bytes"
+			}
+		default:
+			kind = "unsupported:" + f.Type.String()
+		}
+
+		l.Fields = append(l.Fields, VerifField{Name: f.Name, Kind: kind, Size: int(f.Type.Size())})
+	}
+
+	return l
+}
+
+// VerifDescription is everything the harness regenerates its format tables from.
+type VerifDescription struct {
+	Layouts   []VerifLayout
+	Magic     []byte
+	Version   []byte
+	GroupMask uint32
+	NameLen   int
+	ExtraLen  int
+	EntityLen int
+	LaunchLen int
+
+	DefaultGroup uint32
+	DataTypes    map[string]int64 // String() -> value, for every declared constant
+	FSTypes      map[string]int64
+	PartTypes    map[string]int64
+	HashTypes    map[string]int64
+	FormatTypes  map[string]int64
+	MessageTypes map[string]int64
+	SBOMFormats  map[string]int64
+	Archs        map[string]string // go arch -> 2 character code
+	ArchUnknown  string
+}
+
+// VerifDescribe returns a description of the on-disk format implemented by this package.
+func VerifDescribe() VerifDescription {
+	d := VerifDescription{
+		Layouts: []VerifLayout{
+			verifLayoutOf("header", header{}),
+			verifLayoutOf("rawDescriptor", rawDescriptor{}),
+			verifLayoutOf("partition", partition{}),
+			verifLayoutOf("signature", signature{}),
+			verifLayoutOf("cryptoMessage", cryptoMessage{}),
+			verifLayoutOf("sbom", sbom{}),
+		},
+		Magic:        hdrMagic[:],
+		GroupMask:    descrGroupMask,
+		NameLen:      descrNameLen,
+		ExtraLen:     descrMaxPrivLen,
+		EntityLen:    descrEntityLen,
+		LaunchLen:    hdrLaunchLen,
+		DefaultGroup: DefaultObjectGroup,
+		DataTypes:    map[string]int64{},
+		FSTypes:      map[string]int64{},
+		PartTypes:    map[string]int64{},
+		HashTypes:    map[string]int64{},
+		FormatTypes:  map[string]int64{},
+		MessageTypes: map[string]int64{},
+		SBOMFormats:  map[string]int64{},
+		Archs:        map[string]string{},
+	}
+
+	v := CurrentVersion.bytes()
+	d.Version = v[:]
+
+	for t := DataDeffile; t <= DataOCIBlob; t++ {
+		d.DataTypes[t.String()] = int64(t)
+	}
+
+	for t := FsSquash; t <= FsEncryptedSquashfs; t++ {
+		d.FSTypes[t.String()] = int64(t)
+	}
+
+	for t := PartSystem; t <= PartOverlay; t++ {
+		d.PartTypes[t.String()] = int64(t)
+	}
+
+	for t := hashSHA256; t <= hashBLAKE2B; t++ {
+		h, err := getHashType(t)
+		if err != nil {
+			continue
+		}
+		d.HashTypes[h.String()] = int64(t)
+	}
+
+	d.FormatTypes[FormatOpenPGP.String()] = int64(FormatOpenPGP)
+	d.FormatTypes[FormatPEM.String()] = int64(FormatPEM)
+	d.MessageTypes[MessageClearSignature.String()] = int64(MessageClearSignature)
+	d.MessageTypes[MessageRSAOAEP.String()] = int64(MessageRSAOAEP)
+
+	for t := SBOMFormatCycloneDXJSON; t <= SBOMFormatSyftJSON; t++ {
+		d.SBOMFormats[t.String()] = int64(t)
+	}
+
+	for _, a := range []string{
+		"386", "amd64", "arm", "arm64", "ppc64", "ppc64le", "mips", "mipsle", "mips64", "mips64le",
+		"s390x", "riscv64",
+	} {
+		t := getSIFArch(a)
+		if t.GoArch() != a {
+			d.Archs[a] = "inconsistent"
+			continue
+		}
+		d.Archs[a] = string(t[:2])
+	}
+
+	d.ArchUnknown = string(hdrArchUnknown[:2])
+
+	return d
+}
+
+// VerifRaw returns the binary encodings of the in-memory header and descriptors of f, and a copy
+// of the minimum object ID map.
+func VerifRaw(f *FileImage) ([]byte, [][]byte, map[uint32]uint32) {
+	var hb bytes.Buffer
+	if err := binary.Write(&hb, binary.LittleEndian, f.h); err != nil {
+		panic(err)
+	}
+
+	rds := make([][]byte, 0, len(f.rds))
+
+	for i := range f.rds {
+		var b bytes.Buffer
+		if err := binary.Write(&b, binary.LittleEndian, f.rds[i]); err != nil {
+			panic(err)
+		}
+		rds = append(rds, b.Bytes())
+	}
+
+	m := make(map[uint32]uint32, len(f.minIDs))
+	for k, v := range f.minIDs {
+		m[k] = v
+	}
+
+	return hb.Bytes(), rds, m
+}
+
+// VerifRelativeID returns the relative object ID recorded in d.
+func VerifRelativeID(d Descriptor) uint32 { return d.relativeID }
+
+// VerifNextAligned exposes nextAligned.
+func VerifNextAligned(offset int64, alignment int) (int64, error) {
+	return nextAligned(offset, alignment)
+}
+
+// VerifSnapshot returns a textual deep snapshot of everything reachable from f (every field,
+// including any added in future), other than the contents of non-Buffer backing storage.
+func VerifSnapshot(f *FileImage) string {
+	var b strings.Builder
+
+	verifDump(&b, reflect.ValueOf(f).Elem(), "f", 0)
+
+	return b.String()
+}
+
+func verifDump(b *strings.Builder, v reflect.Value, path string, depth int) {
+	if depth > 12 {
+		fmt.Fprintf(b, "%s=<depth>\n", path)
+		return
+	}
+
+	switch v.Kind() { //nolint:exhaustive
+	case reflect.Ptr, reflect.Interface:
+		if v.IsNil() {
+			fmt.Fprintf(b, "%s=nil\n", path)
+			return
+		}
+
+		e := v.Elem()
+		if v.Kind() == reflect.Interface && e.Kind() == reflect.Ptr && !e.IsNil() {
+			if e.Type() == reflect.TypeOf(&Buffer{}) {
+				verifDump(b, e.Elem(), path+".(*Buffer)", depth+1)
+			} else {
+				fmt.Fprintf(b, "%s=(%s)\n", path, e.Type())
+			}
+
+			return
+		}
+
+		verifDump(b, e, path+"*", depth+1)
+
+	case reflect.Struct:
+		for i := 0; i < v.NumField(); i++ {
+			verifDump(b, v.Field(i), path+"."+v.Type().Field(i).Name, depth+1)
+		}
+
+	case reflect.Slice, reflect.Array:
+		if v.Kind() == reflect.Slice && v.IsNil() {
+			fmt.Fprintf(b, "%s=nil-slice\n", path)
+			return
+		}
+
+		if v.Type().Elem().Kind() == reflect.Uint8 {
+			bs := make([]byte, v.Len())
+			for i := range bs {
+				bs[i] = byte(v.Index(i).Uint())
+			}
+
+			fmt.Fprintf(b, "%s=bytes[%d]:%x\n", path, len(bs), bs)
+
+			return
+		}
+
+		fmt.Fprintf(b, "%s.len=%d\n", path, v.Len())
+
+		for i := 0; i < v.Len(); i++ {
+			verifDump(b, v.Index(i), fmt.Sprintf("%s[%d]", path, i), depth+1)
+		}
+
+	case reflect.Map:
+		if v.IsNil() {
+			fmt.Fprintf(b, "%s=nil-map\n", path)
+			return
+		}
+
+		keys := v.MapKeys()
+		strs := make([]string, 0, len(keys))
+
+		for _, k := range keys {
+			var kb, vb strings.Builder
+
+			verifDump(&kb, k, "k", depth+1)
+			verifDump(&vb, v.MapIndex(k), "v", depth+1)
+			strs = append(strs, kb.String()+vb.String())
+		}
+
+		sort.Strings(strs)
+		fmt.Fprintf(b, "%s.len=%d\n%s", path, len(keys), strings.Join(strs, ""))
+
+	case reflect.Bool:
+		fmt.Fprintf(b, "%s=%v\n", path, v.Bool())
+
+	case reflect.Int, reflect.Int8, reflect.Int16, reflect.Int32, reflect.Int64:
+		fmt.Fprintf(b, "%s=%d\n", path, v.Int())
+
+	case reflect.Uint, reflect.Uint8, reflect.Uint16, reflect.Uint32, reflect.Uint64, reflect.Uintptr:
+		fmt.Fprintf(b, "%s=%d\n", path, v.Uint())
+
+	case reflect.String:
+		fmt.Fprintf(b, "%s=%q\n", path, v.String())
+
+	case reflect.Func, reflect.Chan, reflect.UnsafePointer:
+		fmt.Fprintf(b, "%s=(%s nil=%v)\n", path, v.Kind(), v.IsNil())
+
+	default:
+		fmt.Fprintf(b, "%s=(%s)\n", path, v.Kind())
+	}
+}
